@@ -32,11 +32,11 @@ from vlib import strat as S
 PROPERTY = "C30"
 LEVEL = "exploration"
 RULE = ("Generated distribution parameters (dyadic, documented ranges; scalars, arrays, fields, pytrees; every "
-        "documented parametrisation) and 27 probabilities per case (log-spaced tails down to 1e-12 on both sides, "
+        "documented parametrisation) and 27 probabilities + a 33-point grid per case (log-spaced tails down to 1e-12 on both sides, "
         "linear grid, fixed extremes and median), latent value xi = Phi^-1(p); oracle = scipy.stats "
         "ppf/isf of the documented target distribution, closed-form log-normal moments, round trips, monotony on "
         "a generated sorted grid (spacing 2^-3 .. 2^-36), classic-vs-JAX differential.")
-LEVEL_TEXT = ("Search over generated parameters and probabilities: every case compares the transform at 27 latent "
+LEVEL_TEXT = ("Search over generated parameters and probabilities: every case compares the transform at 60 latent "
               "values including both 1e-12 tails with an independent SciPy quantile, checks every provided inverse "
               "against the exact quantile and in a round trip, and monotony on a generated grid. A wrong parameter "
               "mapping, sign, swapped argument or too coarse table is seen on the first case that exercises it. "
@@ -70,6 +70,7 @@ TOL = 1e-9        # after transcendental functions (DESIGN 1.4)
 SAFETY = 2.0      # on the linear-interpolation bound (second differences instead of the sup of g'')
 FIXED_PS = [2 * 93, 2 * 93 + 1, 2 * (94 + 511)]     # t = 1e-12 on both sides, t = 1/2
 NLOG = 94
+NP = 24          # generated probabilities per case
 
 
 # ------------------------------------------------------------------------------------------------ points
@@ -88,11 +89,27 @@ def points(rec_ps):
     return t, hi, xi
 
 
+NG = 33
+
+
 def grid(rec_grid):
+    """sorted grid of NG latent values around x0 with spacing 2^-k, clipped to [-7, 7] (may contain repeats)"""
     x0, k = rec_grid["x0"], rec_grid["k"]
-    xs = x0 + np.arange(-16, 17) * 2.0 ** (-k)
-    xs = np.unique(np.clip(xs, -7.0, 7.0))
-    return xs
+    return np.clip(x0 + np.arange(-(NG // 2), NG // 2 + 1) * 2.0 ** (-k), -7.0, 7.0)
+
+
+def allpoints(rec):
+    """the case's latent vector: NP generated + 3 fixed probabilities, then the sorted grid (slice G).
+    Grid points are ordinary test points as well (their probability is Phi(x))."""
+    t, hi, xi = points(rec["ps"])
+    g = grid(rec["grid"])
+    tg, hg = tails_of(g)
+    return np.concatenate([t, tg]), np.concatenate([hi, hg]), np.concatenate([xi, g]), slice(xi.size, None)
+
+
+def mono(g, yg, fprime, kind, detail=""):
+    keep = np.concatenate([[True], np.diff(g) > 0])
+    return monotone_check(g[keep], np.asarray(yg)[keep], fprime(g[keep]), kind, detail)
 
 
 def tails_of(xs):
@@ -261,11 +278,15 @@ def check_lognormal_moments(lm, ls, mean, std, kind):
 
 
 def pclass(t, hi):
+    """classes of the *generated* probabilities (the fixed extremes are always present)"""
+    t, hi = t[:NP], hi[:NP]
     cl = []
     if np.any(hi & (t < 1e-9)):
-        cl.append("p>1-1e-9")
+        cl.append("generated_p>1-1e-9")
     if np.any(~hi & (t < 1e-9)):
-        cl.append("p<1e-9")
+        cl.append("generated_p<1e-9")
+    if np.any((t > 0.4)):
+        cl.append("generated_near_median")
     return cl
 
 
@@ -275,14 +296,11 @@ def _mf(key, dom, x):
 
 
 def check_cl_closed(rec):
-    t, hi, xi = points(rec["ps"])
+    t, hi, xi, G = allpoints(rec)
     n = xi.size
-    xs = grid(rec["grid"])
     kind = rec["kind"]
     classes = [kind] + pclass(t, hi)
     dom = ift.UnstructuredDomain(n)
-    gdom = ift.UnstructuredDomain(xs.size)
-    nontrivial = True
     if kind in ("normal", "lognormal"):
         ncop = rec["ncopies"]
         mean, sig = arr(rec["mean"], n), arr(rec["sigma"], n)
@@ -301,14 +319,13 @@ def check_cl_closed(rec):
             mk = lambda m, s, N: ift.LognormalTransform(m, s, "xi", N)
         if ncop == 0:
             # scalar field: one latent value per application; scalar parameters only
-            m0 = float(np.asarray(mean).flat[0])
-            s0 = float(np.asarray(sig).flat[0])
+            m0, s0 = float(mean), float(sig)
             op = mk(m0, s0, 0)
             sdom = ift.DomainTuple.scalar_domain()
             require(op.target == sdom, "scalar_target", f"{op.target}")
-            idx = list(range(0, n, 5)) + [n - 3, n - 2, n - 1]
+            idx = np.array(list(range(0, NP, 4)) + [NP, NP + 1, NP + 2, NP + 3, n - 1])
             y = np.array([float(op(_mf("xi", sdom, np.array(xi[i]))).asnumpy()) for i in idx])
-            d0 = dist(float(np.asarray(mu).flat[0]), float(np.asarray(sd).flat[0]))
+            d0 = dist(float(mu), float(sd))
             ref = quant(d0, t[idx], hi[idx])
             scale = np.abs(ref) + (abs(m0) + s0 if kind == "normal" else 0.0)
             forward_check(y, d0, t[idx], hi[idx], scale, f"cl_{kind}_scalar_domain")
@@ -321,39 +338,36 @@ def check_cl_closed(rec):
             scale = np.abs(ref) + (np.abs(mean) + sig if kind == "normal" else 0.0)
             forward_check(y, d, t, hi, scale, f"cl_{kind}_quantile")
             if not isarr:
-                opg = mk(mean, sig, xs.size)
-                yg = opg(_mf("xi", gdom, xs)).asnumpy()
-                ns = monotone_check(xs, yg, deriv(d, xs), f"cl_{kind}_monotone")
+                ns = mono(xi[G], y[G], lambda z: deriv(d, z), f"cl_{kind}_monotone")
                 classes.append("strict>=8" if ns >= 8 else "strict<8")
-        return dict(nontrivial=nontrivial, classes=classes)
+        return dict(nontrivial=True, classes=classes)
 
     loc, sc = float(rec["loc"]), float(rec["scale"])
     if rec.get("default"):
         classes.append("default_args")
         loc, sc = 0.0, 1.0
-        mkop = lambda D: (ift.UniformOperator(D) if kind == "uniform" else ift.LaplaceOperator(D))
+        op = ift.UniformOperator(dom) if kind == "uniform" else ift.LaplaceOperator(dom)
+    elif kind == "uniform":
+        op = ift.UniformOperator(dom, loc=loc, scale=sc)
     else:
-        mkop = lambda D: (ift.UniformOperator(D, loc=loc, scale=sc) if kind == "uniform"
-                          else ift.LaplaceOperator(D, loc=loc, scale=sc))
+        op = ift.LaplaceOperator(dom, loc=loc, scale=sc)
     d = stats.uniform(loc=loc, scale=sc) if kind == "uniform" else stats.laplace(loc=loc, scale=sc)
-    op = mkop(dom)
     y = op(ift.makeField(dom, xi)).asnumpy()
     ref = quant(d, t, hi)
     scale = np.abs(ref) + abs(loc) + sc
-    forward_check(y, d, t, hi, scale, f"cl_{kind}_quantile")
+    forward_check(y, d, t, hi, scale, f"cl_{kind}_quantile", detail=f"loc={loc} scale={sc}")
     # inverse on the exact quantile and as a round trip.  The quantile y is a rounded float: the inverse sees
     # a probability perturbed by pdf(y)*ulp(y) in addition.
     dp = d.pdf(ref) * 2 * np.spacing(scale)
     xb = op.inverse(ift.makeField(dom, ref))
     require(xb.domain == op.domain, "inverse_domain", f"{xb.domain}")
-    inverse_check(xb.asnumpy(), t, hi, f"cl_{kind}_inverse_of_exact", k=K1, dp=dp)
+    inverse_check(xb.asnumpy(), t, hi, f"cl_{kind}_inverse_of_exact", k=K1, dp=dp, detail=f"loc={loc} scale={sc}")
     xb = op.inverse(op(ift.makeField(dom, xi)))
-    inverse_check(xb.asnumpy(), t, hi, f"cl_{kind}_roundtrip", k=K2, dp=2 * dp)
-    yg = mkop(gdom)(ift.makeField(gdom, xs)).asnumpy()
-    ns = monotone_check(xs, yg, deriv(d, xs), f"cl_{kind}_monotone")
+    inverse_check(xb.asnumpy(), t, hi, f"cl_{kind}_roundtrip", k=K2, dp=2 * dp, detail=f"loc={loc} scale={sc}")
+    ns = mono(xi[G], y[G], lambda z: deriv(d, z), f"cl_{kind}_monotone", f"loc={loc} scale={sc}")
     classes.append("strict>=8" if ns >= 8 else "strict<8")
     classes.append("loc<0" if loc < 0 else "loc>=0")
-    return dict(nontrivial=nontrivial, classes=classes)
+    return dict(nontrivial=True, classes=classes)
 
 
 # ============================================================================ classic interpolated operators
@@ -365,19 +379,25 @@ def _fieldify(dom, v, n):
     return float(v), float(v)
 
 
+def node_band(std, fstd, xi, h, k=K2):
+    """relative band [lo, up] around the exact value: the table nodes are quantiles of float64 cdf values at
+    the nodes -> band of the worst node within one step"""
+    lo = np.minimum.reduce([quant(std, *tails_of(xi + o * h), -k) / fstd(xi + o * h) for o in (-1, 0, 1)])
+    up = np.maximum.reduce([quant(std, *tails_of(xi + o * h), +k) / fstd(xi + o * h) for o in (-1, 0, 1)])
+    return np.minimum(lo, 1.0), np.maximum(up, 1.0)
+
+
 def check_cl_interp(rec):
-    t, hi, xi = points(rec["ps"])
+    t, hi, xi, G = allpoints(rec)
     n = xi.size
-    xs = grid(rec["grid"])
     kind = rec["kind"]
     delta = float(rec["delta"])
     dom = ift.UnstructuredDomain(n)
-    gdom = ift.UnstructuredDomain(xs.size)
-    classes = [kind, f"delta={delta:g}"] + pclass(t, hi)
-    kw = {} if rec.get("default_delta") else {"delta": delta}
-    if rec.get("default_delta"):
+    dflt = bool(rec.get("default_delta"))
+    kw = {} if dflt else {"delta": delta}
+    if dflt:
         delta = 1e-2
-        classes.append("default_delta")
+    classes = [kind, f"delta={delta:g}"] + pclass(t, hi) + (["default_delta"] if dflt else [])
     how = rec.get("how", "")
     classes.append(f"{kind}:{how}")
     logout = False
@@ -385,76 +405,62 @@ def check_cl_interp(rec):
         if how == "mode_mean":
             mode, mean = float(rec["mode"]), float(rec["mean"])
             alpha = (mean + mode) / (mean - mode)
-            qa, qv = None, 2.0 * mean * mode / (mean - mode)
-            mk = lambda D, q: ift.InverseGammaOperator(D, mode=mode, mean=mean, **kw)
+            qa, mult = None, 2.0 * mean * mode / (mean - mode)
+            op = ift.InverseGammaOperator(dom, mode=mode, mean=mean, **kw)
         else:
             alpha = float(rec["alpha"])
-            qa, qv = _fieldify(dom, rec["q"], n)
+            qa, mult = _fieldify(dom, rec["q"], n)
             if kind == "invgamma":
-                mk = lambda D, q: ift.InverseGammaOperator(D, alpha=alpha, q=q, **kw)
+                op = ift.InverseGammaOperator(dom, alpha=alpha, q=qa, **kw)
             else:
                 logout = True
-                if rec.get("default_delta"):
-                    mk = lambda D, q: ift.LogInverseGammaOperator(D, alpha, q)
-                else:
-                    mk = lambda D, q: ift.LogInverseGammaOperator(D, alpha, q, delta)
+                op = ift.LogInverseGammaOperator(dom, alpha, qa, **kw)
         std = stats.invgamma(alpha)
-        mult = qv
     elif kind == "gamma":
         if how == "mean_var":
             mean, var = float(rec["mean"]), float(rec["var"])
-            alpha, qa, qv = mean * mean / var, None, var / mean
-            mk = lambda D, q: ift.GammaOperator(D, mean=mean, var=var, **kw)
+            alpha, qa, mult = mean * mean / var, None, var / mean
+            op = ift.GammaOperator(dom, mean=mean, var=var, **kw)
         elif how == "alpha_beta":
             alpha = float(rec["alpha"])
-            ba, bv = _fieldify(dom, rec["q"], n)
-            qa, qv = ba, 1.0 / np.asarray(bv)
-            mk = lambda D, q: ift.GammaOperator(D, alpha=alpha, beta=q, **kw)
+            qa, bv = _fieldify(dom, rec["q"], n)
+            mult = 1.0 / np.asarray(bv)
+            op = ift.GammaOperator(dom, alpha=alpha, beta=qa, **kw)
         else:
             alpha = float(rec["alpha"])
-            qa, qv = _fieldify(dom, rec["q"], n)
-            mk = lambda D, q: ift.GammaOperator(D, alpha=alpha, theta=q, **kw)
+            qa, mult = _fieldify(dom, rec["q"], n)
+            op = ift.GammaOperator(dom, alpha=alpha, theta=qa, **kw)
         std = stats.gamma(alpha)
-        mult = qv
     else:
         a, b = float(rec["a"]), float(rec["b"])
         std = stats.beta(a, b)
         if not scipy_table_ok(std, delta):
             raise Discard()
         qa, mult = None, 1.0
-        mk = lambda D, q: (ift.BetaOperator(D, a, b) if rec.get("default_delta") else ift.BetaOperator(D, a, b, delta))
+        op = ift.BetaOperator(dom, a, b, **kw)
         classes.append("beta_" + ("U" if a < 1 and b < 1 else "J" if a < 1 or b < 1 else "bell"))
     fieldq = isinstance(qa, ift.Field)
     classes.append("field_scale" if fieldq else "scalar_scale")
-    if std.args and std.args[0] < 1:
+    if std.args[0] < 1:
         classes.append("shape<1")
+    detail = f"{kind} {how} shape={std.args} delta={delta}"
 
-    op = mk(dom, qa)
     require(op.target == ift.DomainTuple.make(dom), "target", f"{op.target}")
     y = op(ift.makeField(dom, xi)).asnumpy()
     fstd = lambda z: at_latent(std, z)
     rtol = interp_tol(fstd, xi, delta) + TOL
-    # the table nodes are quantiles of float64 cdf values at the nodes: band of the worse neighbour node
-    lo = np.minimum.reduce([quant(std, *tails_of(xi + o * delta), -K2) / fstd(xi + o * delta) for o in (-1, 0, 1)])
-    up = np.maximum.reduce([quant(std, *tails_of(xi + o * delta), +K2) / fstd(xi + o * delta) for o in (-1, 0, 1)])
+    lo, up = node_band(std, fstd, xi, delta)
     ref = quant(std, t, hi)
     mult_a = np.broadcast_to(np.asarray(mult, dtype=np.float64), ref.shape)
     if logout:
-        in_band(y, np.log(mult_a * ref * lo), np.log(mult_a * ref * up), rtol, f"cl_{kind}_quantile",
-                f"alpha={alpha} delta={delta}")
+        in_band(y, np.log(mult_a * ref * lo), np.log(mult_a * ref * up), rtol, f"cl_{kind}_quantile", detail)
     else:
-        in_band(y, mult_a * ref * lo, mult_a * ref * up, rtol * mult_a * ref, f"cl_{kind}_quantile",
-                f"shape={std.args} delta={delta}")
+        in_band(y, mult_a * ref * lo, mult_a * ref * up, rtol * mult_a * ref, f"cl_{kind}_quantile", detail)
     # monotone on the grid (scalar scale only: a field-valued scale differs per pixel)
     if not fieldq:
-        opg = mk(gdom, qa)
-        yg = opg(ift.makeField(gdom, xs)).asnumpy()
         m0 = float(np.asarray(mult))
-        if logout:
-            fp = deriv(std, xs) / fstd(xs)
-        else:
-            fp = deriv(std, xs) * m0
-        ns = monotone_check(xs, yg, fp, f"cl_{kind}_monotone", f"shape={std.args} delta={delta}")
+        fp = (lambda z: deriv(std, z) / fstd(z)) if logout else (lambda z: deriv(std, z) * m0)
+        ns = mono(xi[G], y[G], fp, f"cl_{kind}_monotone", detail)
         classes.append("strict>=8" if ns >= 8 else "strict<8")
     return dict(nontrivial=True, classes=classes)
 
@@ -463,32 +469,34 @@ def check_cl_interp(rec):
 def _jx():
     import jax
     import jax.numpy as jnp
+
     import nifty.re as jft
     return jax, jnp, jft
 
 
-def _split(jft, jnp, v, n1):
+NV1 = 20   # first leaf of the two-leaf jft.Vector (second leaf is 2-D)
+
+
+def _split(jft, jnp, v):
     """array -> jft.Vector with two leaves (the second one 2-D) to exercise tree-like parameters"""
     v = np.asarray(v, dtype=np.float64)
-    return jft.Vector({"a": jnp.asarray(v[:n1]), "b": jnp.asarray(v[n1:]).reshape(1, -1)})
+    return jft.Vector({"a": jnp.asarray(v[:NV1]), "b": jnp.asarray(v[NV1:]).reshape(1, -1)})
 
 
 def _unsplit(vec):
-    tr = vec.tree if hasattr(vec, "tree") else vec
+    tr = vec.tree
     return np.concatenate([np.asarray(tr["a"]).reshape(-1), np.asarray(tr["b"]).reshape(-1)])
 
 
 def check_re_closed(rec):
     jax, jnp, jft = _jx()
-    t, hi, xi = points(rec["ps"])
+    t, hi, xi, G = allpoints(rec)
     n = xi.size
-    xs = grid(rec["grid"])
     kind, api, pk = rec["kind"], rec["api"], rec["pkind"]
     classes = [kind, "api_" + api, "param_" + pk] + pclass(t, hi)
     p1, p2 = rec["p1"], rec["p2"]
     if pk == "scalar":
-        a1 = float(p1 if not isinstance(p1, list) else p1[0])
-        a2 = float(p2 if not isinstance(p2, list) else p2[0])
+        a1, a2 = float(p1), float(p2)
     else:
         a1, a2 = np.resize(np.array(p1, dtype=np.float64), n), np.resize(np.array(p2, dtype=np.float64), n)
     # oracle side -----------------------------------------------------------------------------------
@@ -505,7 +513,7 @@ def check_re_closed(rec):
             classes.append("unit_" + rec["unit"])
         else:
             a2 = a1 + a2                                   # p2 is the width
-        d = stats.uniform(loc=np.asarray(a1, dtype=np.float64), scale=np.asarray(a2, dtype=np.float64) - a1)
+        d = stats.uniform(loc=np.asarray(a1, dtype=np.float64), scale=np.asarray(a2 - a1, dtype=np.float64))
         base = np.abs(a1) + np.abs(a2)
     else:
         d = stats.laplace(scale=a1)
@@ -513,68 +521,53 @@ def check_re_closed(rec):
     ref = quant(d, t, hi)
     scale = np.abs(ref) + base
     # code under test ---------------------------------------------------------------------------------
-    n1 = n // 3
-    wrap = (lambda v: _split(jft, jnp, v, n1)) if pk == "vector" else (lambda v: v)
-    w1, w2 = (wrap(a1), wrap(a2)) if pk == "vector" else (a1, a2)
-    inv = None
+    vec = pk == "vector"
+    wrap = (lambda v: _split(jft, jnp, v)) if vec else (lambda v: v if np.isscalar(v) else jnp.asarray(v))
+    unwrap = _unsplit if vec else np.asarray
+    w1, w2 = wrap(a1), wrap(a2)
+    f = inv = None
     if api == "function":
         if kind == "normal":
             f, inv = jft.normal_prior(w1, w2), jft.normal_invprior(w1, w2)
         elif kind == "lognormal":
             f, inv = jft.lognormal_prior(w1, w2), jft.lognormal_invprior(w1, w2)
             lm, ls = jft.lognormal_moments(w1, w2)
-            lmv, lsv = (_unsplit(lm), _unsplit(ls)) if pk == "vector" else (np.asarray(lm), np.asarray(ls))
-            check_lognormal_moments(lmv, lsv, np.asarray(a1), np.asarray(a2), "re_lognormal_moments")
+            check_lognormal_moments(unwrap(lm), unwrap(ls), np.asarray(a1), np.asarray(a2), "re_lognormal_moments")
         elif kind == "uniform":
             f = jft.uniform_prior(w1, w2)
         else:
             f = jft.laplace_prior(w1)
-        xin = wrap(xi) if pk == "vector" else jnp.asarray(xi)
-        out = f(xin)
-        y = _unsplit(out) if pk == "vector" else np.asarray(out)
-        apply_grid = (lambda g: np.asarray(f(jnp.asarray(g)))) if pk == "scalar" else None
+        y = unwrap(f(wrap(xi)))
     else:
         named = api == "model_named"
         kw = dict(shape=(n,), dtype=jnp.float64)
         if named:
             kw["name"] = "lat"
         if kind == "normal":
-            m = jft.NormalPrior(a1, a2, **kw)
+            m = jft.NormalPrior(w1, w2, **kw)
         elif kind == "lognormal":
-            m = jft.LogNormalPrior(a1, a2, **kw)
+            m = jft.LogNormalPrior(w1, w2, **kw)
         elif kind == "uniform":
-            m = jft.UniformPrior(a1, a2, **kw)
+            m = jft.UniformPrior(w1, w2, **kw)
         else:
-            m = jft.LaplacePrior(a1, **kw)
-        y = np.asarray(m({"lat": jnp.asarray(xi)} if named else jnp.asarray(xi)))
+            m = jft.LaplacePrior(w1, **kw)
+        inp = {"lat": jnp.asarray(xi)} if named else jnp.asarray(xi)
+        y = np.asarray(m(inp))
         if rec.get("jit"):
             classes.append("jit")
-            yj = np.asarray(jax.jit(m)({"lat": jnp.asarray(xi)} if named else jnp.asarray(xi)))
+            yj = np.asarray(jax.jit(m)(inp))
             in_band(yj, y, y, 1e-12 * scale, f"re_{kind}_jit_vs_eager")
-        if pk == "scalar":
-            def apply_grid(g):
-                mg = type(m)(*((a1, a2) if kind != "laplace" else (a1,)), shape=(g.size,), dtype=jnp.float64)
-                return np.asarray(mg(jnp.asarray(g)))
-        else:
-            apply_grid = None
-    forward_check(y, d, t, hi, scale, f"re_{kind}_quantile", detail=f"api={api} params={pk}")
+    detail = f"api={api} params={pk} p1={p1} p2={p2}"
+    forward_check(y, d, t, hi, scale, f"re_{kind}_quantile", detail=detail)
     if inv is not None:
         dp = d.pdf(ref) * 2 * np.spacing(scale)
-        rin = wrap(ref) if pk == "vector" else jnp.asarray(ref)
-        xb = inv(rin)
-        xb = _unsplit(xb) if pk == "vector" else np.asarray(xb)
-        inverse_check(xb, t, hi, f"re_{kind}_inverse_of_exact", k=K1, dp=dp)
-        xb = inv(f(wrap(xi) if pk == "vector" else jnp.asarray(xi)))
-        xb = _unsplit(xb) if pk == "vector" else np.asarray(xb)
-        inverse_check(xb, t, hi, f"re_{kind}_roundtrip", k=K2, dp=2 * dp)
+        xb = unwrap(inv(wrap(ref)))
+        inverse_check(xb, t, hi, f"re_{kind}_inverse_of_exact", k=K1, dp=dp, detail=detail)
+        xb = unwrap(inv(f(wrap(xi))))
+        inverse_check(xb, t, hi, f"re_{kind}_roundtrip", k=K2, dp=2 * dp, detail=detail)
         classes.append("inverse")
-    if apply_grid is not None:
-        # fixed grid length for few compilations
-        g = np.resize(xs, 33)
-        g.sort()
-        yg = apply_grid(g)
-        keep = np.concatenate([[True], np.diff(g) > 0])
-        ns = monotone_check(g[keep], np.asarray(yg)[keep], deriv(d, g[keep]), f"re_{kind}_monotone")
+    if pk == "scalar":
+        ns = mono(xi[G], y[G], lambda z: deriv(d, z), f"re_{kind}_monotone", detail)
         classes.append("strict>=8" if ns >= 8 else "strict<8")
     return dict(nontrivial=True, classes=classes)
 
@@ -582,16 +575,20 @@ def check_re_closed(rec):
 # ============================================================================ nifty.re inverse gamma
 def check_re_invgamma(rec):
     jax, jnp, jft = _jx()
-    t, hi, xi = points(rec["ps"])
+    t, hi, xi, G = allpoints(rec)
     n = xi.size
-    xs = grid(rec["grid"])
     a, loc, step = rec["a"], float(rec["loc"]), float(rec["step"])
     api = rec["api"]
     sc = rec["scale"]
     arrscale = isinstance(sc, list)
     scv = np.resize(np.array(sc, dtype=np.float64), n) if arrscale else float(sc)
+    default_step = bool(rec.get("default_step"))
+    if default_step:
+        step = 1e-2
     classes = ["api_" + api, f"step={step:g}", "loc=0" if loc == 0 else ("loc>0" if loc > 0 else "loc<0"),
                "array_scale" if arrscale else "scalar_scale"] + pclass(t, hi)
+    if default_step:
+        classes.append("default_step")
     if rec.get("int_a"):
         a = int(a)
         classes.append("int_a")
@@ -599,104 +596,81 @@ def check_re_invgamma(rec):
         a = float(a)
     if a < 1:
         classes.append("a<1")
-    default_step = bool(rec.get("default_step"))
-    if default_step:
-        step = 1e-2
-        classes.append("default_step")
     std = stats.invgamma(a)
     fstd = lambda z: at_latent(std, z)
-    full = lambda z: loc + np.asarray(scv if not arrscale else 1.0) * fstd(z)   # scalar-scale only
     # code under test
-    args = (a, (np.asarray(scv) if arrscale else scv))
+    args = (a, scv)
     kw = {}
     if loc != 0.0 or rec.get("pass_loc"):
         kw["loc"] = loc
     if not default_step:
         kw["step"] = step
+    detail = f"a={a} scale={sc} loc={loc} step={step} api={api}"
     if arrscale and loc != 0.0:
         # documented restriction
         try:
             jft.invgamma_prior(*args, **kw)
         except TypeError:
             return dict(nontrivial=False, classes=classes + ["array_scale_with_loc_raises"])
-        raise Violation("re_invgamma_array_scale_with_loc_accepted", "no TypeError")
+        raise Violation("re_invgamma_array_scale_with_loc_accepted", "no TypeError " + detail)
     if api == "function":
-        f = jft.invgamma_prior(*args, **kw)
-        call = lambda z: np.asarray(f(jnp.asarray(z)))
+        y = np.asarray(jft.invgamma_prior(*args, **kw)(jnp.asarray(xi)))
     else:
-        def call(z):
-            m = jft.InvGammaPrior(*args, **kw, shape=(np.asarray(z).size,), dtype=jnp.float64)
-            return np.asarray(m(jnp.asarray(z)))
-    y = call(xi)
+        y = np.asarray(jft.InvGammaPrior(*args, **kw, shape=(n,), dtype=jnp.float64)(jnp.asarray(xi)))
     # tolerance: linear interpolation of the table (documented: log space; linear space is granted as well)
     scal = np.asarray(scv, dtype=np.float64)
     ref_std = quant(std, t, hi)
     ref = loc + scal * ref_std
-    if loc == 0.0:
-        rtol = interp_tol(fstd, xi, step) + TOL
-        tol_abs = rtol * np.abs(ref)
-    else:
-        # the tabulated function is loc + scale*f: bound for it (or its log where it is positive), and the
-        # bound for f itself scaled -- any of the documented ways to tabulate is accepted
-        tol_std = (interp_tol(fstd, xi, step) + TOL) * scal * ref_std
-        if np.all(full(np.array([-7.2])) > 0):
-            tol_full = (interp_tol(full, xi, step) + TOL) * np.abs(ref)
-            tol_abs = np.maximum(tol_std, tol_full)
-        else:
-            tol_abs = tol_std
-        tol_abs = tol_abs + TOL * abs(loc)
-    lo = np.minimum.reduce([quant(std, *tails_of(xi + o * step), -K2) / fstd(xi + o * step) for o in (-1, 0, 1)])
-    up = np.maximum.reduce([quant(std, *tails_of(xi + o * step), +K2) / fstd(xi + o * step) for o in (-1, 0, 1)])
-    in_band(y, loc + scal * ref_std * lo, loc + scal * ref_std * up, tol_abs, "re_invgamma_quantile",
-            f"a={a} scale={sc} loc={loc} step={step}")
-    nontrivial = True
+    rt_std = interp_tol(fstd, xi, step) + TOL          # relative to scale*f
+    rt = rt_std
+    if loc != 0.0:
+        # the tabulated function may be loc + scale*f (or its log where that is positive) instead of f:
+        # any of these ways to tabulate is accepted
+        full = lambda z: loc + float(scv) * fstd(z)
+        if full(np.array([-7.3]))[0] > 0:
+            rt_full = (interp_tol(full, xi, step) + TOL) * np.abs(ref) / (scal * ref_std)
+            rt = np.maximum(rt_std, rt_full)
+    tol_abs = rt * scal * ref_std + TOL * abs(loc)
+    lo, up = node_band(std, fstd, xi, step)
+    in_band(y, loc + scal * ref_std * lo, loc + scal * ref_std * up, tol_abs, "re_invgamma_quantile", detail)
     if not arrscale:
-        g = np.resize(xs, 33)
-        g.sort()
-        keep = np.concatenate([[True], np.diff(g) > 0])
-        yg = call(g)
-        ns = monotone_check(g[keep], yg[keep], deriv(std, g[keep]) * float(scv), "re_invgamma_monotone",
-                            f"a={a} scale={sc} loc={loc} step={step}")
+        ns = mono(xi[G], y[G], lambda z: deriv(std, z) * float(scv), "re_invgamma_monotone", detail)
         classes.append("strict>=8" if ns >= 8 else "strict<8")
         # inverse: documented signature invgamma_invprior(a, scale, loc, step)
-        ikw = dict(kw)
-        inv = jft.invgamma_invprior(a, scv, **ikw)
-        # an error e (relative, in y - loc) of a table moves the latent value by e / (d log f / d xi)
+        inv = jft.invgamma_invprior(a, scv, **kw)
+        # a relative error e of scale*f moves the latent value by e / (d log f / d xi)
         slope = np.abs(logslope(fstd, xi, step))
-        rt = interp_tol(fstd, xi, step) + TOL
-        if loc != 0.0 and np.all(full(np.array([-7.2])) > 0):
-            rt_full = (interp_tol(full, xi, step) + TOL) * np.abs(ref) / (scal * ref_std)
-            rt = np.maximum(rt, rt_full)
         extra = rt / slope
-        # y is a rounded float
+        # the argument of the inverse is a rounded float
         dp = stats.norm.pdf(xi) / (slope * scal * ref_std) * 2 * np.spacing(np.abs(ref) + abs(loc))
         xb = np.asarray(inv(jnp.asarray(ref)))
-        inverse_check(xb, t, hi, "re_invgamma_inverse_of_exact", k=K2, dp=dp, extra=extra,
-                      detail=f"a={a} scale={sc} loc={loc} step={step}")
+        inverse_check(xb, t, hi, "re_invgamma_inverse_of_exact", k=K2, dp=dp, extra=extra, detail=detail)
         xb = np.asarray(inv(jnp.asarray(y)))
-        inverse_check(xb, t, hi, "re_invgamma_roundtrip", k=2 * K2, dp=2 * dp, extra=2 * extra,
-                      detail=f"a={a} scale={sc} loc={loc} step={step}")
+        inverse_check(xb, t, hi, "re_invgamma_roundtrip", k=2 * K2, dp=2 * dp, extra=2 * extra, detail=detail)
         classes.append("inverse")
-    return dict(nontrivial=nontrivial, classes=classes)
+    return dict(nontrivial=True, classes=classes)
 
 
 # ============================================================================ classic vs JAX
 def check_pair(rec):
     jax, jnp, jft = _jx()
-    t, hi, xi = points(rec["ps"])
+    t, hi, xi, G = allpoints(rec)
     n = xi.size
     kind = rec["kind"]
     dom = ift.UnstructuredDomain(n)
     fx = ift.makeField(dom, xi)
+    jx = jnp.asarray(xi)
     classes = [kind] + pclass(t, hi)
     p1, p2 = float(rec["p1"]), float(rec["p2"])
+    kw = dict(shape=(n,), dtype=jnp.float64)
+    detail = f"p1={p1} p2={p2}"
     if kind == "normal":
         yc = ift.NormalTransform(p1, p2, "xi", n)(_mf("xi", dom, xi)).asnumpy()
-        yj = np.asarray(jft.NormalPrior(p1, p2, shape=(n,), dtype=jnp.float64)(jnp.asarray(xi)))
+        yj = np.asarray(jft.NormalPrior(p1, p2, **kw)(jx))
         d, base = stats.norm(p1, p2), abs(p1) + p2
     elif kind == "lognormal":
         yc = ift.LognormalTransform(p1, p2, "xi", n)(_mf("xi", dom, xi)).asnumpy()
-        yj = np.asarray(jft.LogNormalPrior(p1, p2, shape=(n,), dtype=jnp.float64)(jnp.asarray(xi)))
+        yj = np.asarray(jft.LogNormalPrior(p1, p2, **kw)(jx))
         mu, sd = lognormal_params(p1, p2)
         d, base = stats.lognorm(s=sd, scale=np.exp(mu)), 0.0
         lc = ift.utilities.lognormal_moments(p1, p2)
@@ -706,36 +680,34 @@ def check_pair(rec):
                     f"{nm}: classic {float(u)!r} vs re {float(v)!r}")
     elif kind == "uniform":
         yc = ift.UniformOperator(dom, loc=p1, scale=p2)(fx).asnumpy()
-        yj = np.asarray(jft.UniformPrior(p1, p1 + p2, shape=(n,), dtype=jnp.float64)(jnp.asarray(xi)))
+        yj = np.asarray(jft.UniformPrior(p1, p1 + p2, **kw)(jx))
         d, base = stats.uniform(p1, p2), abs(p1) + p2
     elif kind == "laplace":
         yc = ift.LaplaceOperator(dom, loc=0.0, scale=p1)(fx).asnumpy()
-        yj = np.asarray(jft.LaplacePrior(p1, shape=(n,), dtype=jnp.float64)(jnp.asarray(xi)))
+        yj = np.asarray(jft.LaplacePrior(p1, **kw)(jx))
         d, base = stats.laplace(scale=p1), p1
     else:
         step = float(rec["step"])
         classes.append(f"step={step:g}")
         yc = ift.InverseGammaOperator(dom, alpha=p1, q=p2, delta=step)(fx).asnumpy()
-        yj = np.asarray(jft.InvGammaPrior(p1, p2, step=step, shape=(n,), dtype=jnp.float64)(jnp.asarray(xi)))
+        yj = np.asarray(jft.InvGammaPrior(p1, p2, step=step, **kw)(jx))
         std = stats.invgamma(p1)
         fstd = lambda z: at_latent(std, z)
         ref = p2 * quant(std, t, hi)
         rtol = 2 * (interp_tol(fstd, xi, step) + TOL)
-        lo = np.minimum.reduce([quant(std, *tails_of(xi + o * step), -K2) / fstd(xi + o * step) for o in (-1, 0, 1)])
-        up = np.maximum.reduce([quant(std, *tails_of(xi + o * step), +K2) / fstd(xi + o * step) for o in (-1, 0, 1)])
+        lo, up = node_band(std, fstd, xi, step)
         band = ref * (up - lo)
-        in_band(yc, yj - band, yj + band, rtol * ref, "pair_invgamma", f"alpha={p1} q={p2} step={step}")
+        require(np.all(np.isfinite(yj)), "pair_invgamma:nonfinite", detail)
+        in_band(yc, yj - band, yj + band, rtol * ref, "pair_invgamma", detail + f" step={step}")
         return dict(nontrivial=True, classes=classes)
     ref = quant(d, t, hi)
     band = np.abs(quant(d, t, hi, K1) - quant(d, t, hi, -K1))
-    in_band(yc, yj - band, yj + band, 2 * TOL * (np.abs(ref) + base), f"pair_{kind}", f"p1={p1} p2={p2}")
+    require(np.all(np.isfinite(yj)), f"pair_{kind}:nonfinite", detail)
+    in_band(yc, yj - band, yj + band, 2 * TOL * (np.abs(ref) + base), f"pair_{kind}", detail)
     return dict(nontrivial=True, classes=classes)
 
 
 # ------------------------------------------------------------------------------------------------ strategies
-NP = 24
-
-
 def _ps():
     # half of the points log-spaced in the tail probability, half on the linear grid
     code = st.one_of(st.integers(0, 2 * NLOG - 1), st.integers(2 * NLOG, 2 * (NLOG + 512) - 1))
@@ -747,7 +719,8 @@ def _grid():
 
 
 POS = S.dyadic_nz(0.125, 8.0, 8, signed=False)        # scales, widths, means of positive quantities
-SHAPE = st.one_of(S.dyadic_nz(0.25, 4.0, 8, signed=False), S.dyadic_nz(0.25, 16.0, 4, signed=False))
+SHAPE = st.one_of(S.dyadic_nz(0.25, 0.875, 8, signed=False), S.dyadic_nz(1.0, 4.0, 8, signed=False),
+                  S.dyadic_nz(0.25, 16.0, 4, signed=False))
 LOC = S.dyadic(-4, 4, 8)
 
 
@@ -829,7 +802,7 @@ def re_closed_recipes(draw, tier):
     if kind == "uniform" and pk == "scalar" and draw(st.integers(0, 5)) == 0:
         rec["unit"] = draw(st.sampled_from(["float", "int"]))
     if api != "function":
-        rec["jit"] = draw(st.integers(0, 7)) == 0
+        rec["jit"] = draw(st.integers(0, 31)) == 0
     return rec
 
 
@@ -846,14 +819,16 @@ def re_invgamma_recipes(draw, tier):
         rec["a"] = draw(SHAPE)
     rec["loc"] = draw(st.one_of(st.just(0.0), st.just(0.0), LOC))
     rec["pass_loc"] = draw(st.booleans())
-    rec["scale"] = draw(st.one_of(POS, POS, st.lists(POS, min_size=1, max_size=5)))
+    # array-like scale is documented for loc == 0 only (TypeError otherwise: probed rarely)
+    want_array = draw(st.integers(0, 3 if rec["loc"] == 0.0 else 11)) == 0
+    rec["scale"] = draw(st.lists(POS, min_size=1, max_size=5)) if want_array else draw(POS)
     return rec
 
 
 @st.composite
 def pair_recipes(draw, tier):
     kind = draw(st.sampled_from(["normal", "lognormal", "uniform", "laplace", "invgamma"]))
-    rec = {"kind": kind, "ps": draw(_ps())}
+    rec = {"kind": kind, "ps": draw(_ps()), "grid": draw(_grid())}
     if kind in ("normal", "uniform"):
         rec["p1"], rec["p2"] = draw(LOC), draw(POS)
     elif kind == "invgamma":
@@ -863,34 +838,35 @@ def pair_recipes(draw, tier):
     return rec
 
 
-NT = "non-trivial = the case evaluated >= 27 probabilities including both 1e-12 tails and all oracle relations ran"
+NT = ("non-trivial = the case evaluated 27 probabilities including both 1e-12 tails plus the 33-point grid and all "
+      "oracle relations ran")
 SUBS = [
     Sub(name="cl_closed_form", check=check_cl_closed, strategy=cl_closed_recipes, quick=1600, thorough=60000,
-        shards=8,
+        shards=3,
         rule="NormalTransform / LognormalTransform (N_copies 0 and n, scalar and array parameters; "
              "cl.utilities.lognormal_moments against the closed-form moments), UniformOperator, LaplaceOperator "
              "(loc, scale, defaults): value == scipy quantile, .inverse on the exact quantile and round trip, "
              "monotone grid; " + NT),
     Sub(name="cl_interpolated", check=check_cl_interp, strategy=cl_interp_recipes, quick=960, thorough=40000,
-        shards=8,
+        shards=4,
         rule="InverseGammaOperator (alpha,q | mode,mean; q scalar or Field), LogInverseGammaOperator, "
              "GammaOperator (alpha,theta | alpha,beta | mean,var; Field scale), BetaOperator; delta in "
              "{2.5e-3..5e-2} or default: value == scipy quantile within the linear-interpolation bound of the "
              "given delta, monotone grid; " + NT),
     Sub(name="re_closed_form", check=check_re_closed, strategy=re_closed_recipes, quick=960, thorough=40000,
-        shards=8, jax=True,
+        shards=4, jax=True,
         rule="normal/lognormal/uniform/laplace _prior functions and NormalPrior/LogNormalPrior/UniformPrior/"
              "LaplacePrior models (named or not, eager and jit), scalar / array / jft.Vector parameters: value == "
              "scipy quantile; normal_invprior, lognormal_invprior on the exact quantile and round trip; "
              "re lognormal_moments against the closed-form moments; monotone grid; " + NT),
     Sub(name="re_invgamma", check=check_re_invgamma, strategy=re_invgamma_recipes, quick=640, thorough=30000,
-        shards=8, jax=True,
+        shards=3, jax=True,
         rule="invgamma_prior / InvGammaPrior with generated a, scale (scalar or array), loc (0, positive, "
              "negative), step in {2.5e-3..1e-1} or default: value == scipy invgamma quantile within the "
              "linear-interpolation bound of the given step; invgamma_invprior on the exact quantile and round "
              "trip; monotone grid; array scale with loc raises TypeError; non-trivial = all relations ran "
              "(not the TypeError case)"),
-    Sub(name="classic_vs_jax", check=check_pair, strategy=pair_recipes, quick=400, thorough=20000, shards=4,
+    Sub(name="classic_vs_jax", check=check_pair, strategy=pair_recipes, quick=400, thorough=20000, shards=2,
         jax=True,
         rule="same distribution, same parameters, same latent values through the classic operator and the "
              "nifty.re prior model (normal, lognormal incl. both lognormal_moments, uniform, laplace, inverse "
